@@ -98,7 +98,7 @@ def stdOp (toks : List String) : Option String :=
       pure ("ok " ++ showBytes (encReadFullStatus gen ds))
     | _ => none
   | ["stdenc", "vpd83", pv] => do
-    -- {header={…}, descs=[{header={…}, ty=i0|1|3|4|5|6|7|8, body=x…, vid=x…, rest=x…, code=i…, v={…}}, …]}
+    -- {header={…}, descs=[{header={…}, ty=i0|1|2|3|4|5|6|7|8, body=x…, vid=x…, rest=x…, cid=i…, ext=x…, dir=x…, idext=x…, code=i…, v={…}}, …]}
     match ← PVText.parsePV pv with
     | .dict d =>
       let hv := match PDict.get? d "header" with | some h => valsOfPV h | none => fun _ => 0
@@ -108,7 +108,13 @@ def stdOp (toks : List String) : Option String :=
         let ty := match PDict.get? ed "ty" with | some (.int n) => n | _ => 99
         let v := match PDict.get? ed "v" with | some t => valsOfPV t | none => fun _ => 0
         let code := match PDict.get? ed "code" with | some (.int n) => n | _ => 0
+        let cid := match PDict.get? ed "cid" with | some (.int n) => n | _ => 0
         let des ← if ty = 0 then some (Des.vendor (pvBytes e "body")) else if ty = 1 then some (Des.t10 (pvBytes e "vid") (pvBytes e "rest"))
+          else if ty = 2 then
+            (match PDict.get? ed "idext", PDict.get? ed "dir" with
+             | some _, _ => some (Des.eui16 (pvBytes e "idext") cid (pvBytes e "ext"))
+             | none, some _ => some (Des.eui12 cid (pvBytes e "ext") (pvBytes e "dir"))
+             | none, none => some (Des.eui8 cid (pvBytes e "ext")))
           else if ty = 3 then some (Des.naa code v) else if ty = 4 then some (Des.port v) else if ty = 5 then some (Des.tpg v)
           else if ty = 6 then some (Des.lug v) else if ty = 7 then some (Des.md5 (pvBytes e "body"))
           else if ty = 8 then some (Des.name (pvBytes e "body")) else none
